@@ -1,5 +1,16 @@
 //! An atomic sampling reservoir.
 
+#[cfg(metrics_verif)]
+use metrics::__verif::sync::{
+    atomic::{AtomicBool, AtomicU64, AtomicUsize},
+    Mutex,
+};
+#[cfg(metrics_verif)]
+use std::{
+    cell::UnsafeCell,
+    sync::atomic::Ordering::{Acquire, Relaxed, Release},
+};
+#[cfg(not(metrics_verif))]
 use std::{
     cell::UnsafeCell,
     sync::{
@@ -14,9 +25,21 @@ use std::{
 use rand::{rngs::OsRng, Rng, SeedableRng};
 use rand_xoshiro::Xoshiro256StarStar;
 
+#[cfg(not(metrics_verif))]
 thread_local! {
     static FAST_RNG: UnsafeCell<Xoshiro256StarStar> = {
         UnsafeCell::new(Xoshiro256StarStar::try_from_rng(&mut OsRng).unwrap())
+    };
+}
+
+// Verification seam: the per-thread generator is seeded by the simulator when one owns the thread.
+#[cfg(metrics_verif)]
+thread_local! {
+    static FAST_RNG: UnsafeCell<Xoshiro256StarStar> = {
+        UnsafeCell::new(match metrics::__verif::rng_seed() {
+            Some(seed) => Xoshiro256StarStar::seed_from_u64(seed),
+            None => Xoshiro256StarStar::try_from_rng(&mut OsRng).unwrap(),
+        })
     };
 }
 
